@@ -226,7 +226,7 @@ func (r *Run) Finish() {
 		"coverage": cov, "assumptions": r.Assumptions,
 		"wall_s": time.Since(r.start).Seconds(), "violations": unknown,
 	}
-	if ev["assumptions"] == nil {
+	if len(r.Assumptions) == 0 {
 		ev["assumptions"] = []string{}
 	}
 	if r.ReplayPath == "" {
